@@ -467,6 +467,8 @@ def shell_desc(rng, models=None, cone=None, mmax=4, nmax=3, springs=True):
         d['laminaprop'] = list(mat)
         if rng.random() < 0.1:
             d['force_ortho'] = True       # ConeCyl.force_orthotropic_laminate: the 16/26 couplings are dropped from the laminate matrix
+        elif rng.random() < 0.1:
+            d['F_reuse_factor'] = float(rng.uniform(1.3, 2.5))      # laminate matrix handed over directly through ConeCyl.F_reuse
     d['m1'] = int(rng.integers(1, mmax + 1)); d['m2'] = int(rng.integers(1, mmax + 1)); d['n2'] = int(rng.integers(1, nmax + 1))
     d['s'] = int(rng.choice([10, 20, 40]))
     if springs:
@@ -493,6 +495,9 @@ def build_shell(d):
             setattr(cc, k, v)
     if d.get('force_ortho'):
         cc.force_orthotropic_laminate = True
+    if d.get('F_reuse_factor'):
+        from .oracles import shell as _sh
+        cc.F_reuse = np.ascontiguousarray(_sh.laminate_F(d, cc.K)[0])
     for k in ('P', 'P_inc', 'Fc', 'T', 'T_inc', 'pdC', 'pdT', 'uTM', 'thetaTdeg', 'nx', 'nt', 'ni_method', 'ni_num_cores'):
         if k in d:
             setattr(cc, k, d[k])
